@@ -841,8 +841,8 @@ func TestVerifC07SwRestart(t *testing.T) {
 	cases := 260
 	budget := 50 * time.Second
 	if tier == "thorough" {
-		cases = 12000
-		budget = 6 * time.Minute
+		cases = 8000
+		budget = 200 * time.Second
 	}
 	startT := time.Now()
 	w.scriptedW()
